@@ -697,6 +697,24 @@ def tr_after_recycle(ss):
     crs = ast.unparse(cr_fn)
     if "get_state" in crs or "StepState" in crs:
         raise TranslatorError("Step.can_recycle: now inspects the step state (model must be revised)")
+    # a step may not define one of its own (indirect) creators again: walk of the creator links + GraphError
+    own = ("WITH RECURSIVE chain(i) AS (SELECT creator FROM node WHERE i = ? UNION SELECT node.creator FROM node "
+           "JOIN chain ON node.i = chain.i) SELECT 1 FROM chain JOIN node ON node.i = chain.i WHERE node.kind = ? AND node.label = ?")
+    rej_own = False
+    for k, st in enumerate(top):
+        if isinstance(st, ast.If) and "cannot define its own creator" in ast.unparse(st):
+            body = " ".join(norm(ast.unparse(x)) for x in st.body)
+            sqls = [norm(c) for x in st.body for c in ([n.value for n in ast.walk(x) if isinstance(n, ast.Constant) and isinstance(n.value, str)])]
+            joined = norm("".join(c for c in sqls if "chain" in c or "SELECT" in c or "WHERE" in c))
+            later = " ".join(norm(ast.unparse(x)) for x in top[k + 1:])
+            if (norm(ast.unparse(st.test)) != "isinstance(creator, Step)" or st.orelse
+                    or joined.replace(" ", "") != own.replace(" ", "")
+                    or "self.db.execute(sql, (creator.i, Step.kind(), step_label)).fetchone() is not None" not in body
+                    or "raise GraphError(" not in body or "self.try_recycle(" not in later):
+                raise TranslatorError("Workflow.define_step: guard against defining an own creator not recognised")
+            rej_own = True
+    if dsrc.count("own creator") != (1 if rej_own else 0):
+        raise TranslatorError("Workflow.define_step: unexpected mention of `own creator`")
     b = lambda v: "true" if v else "false"  # noqa: E731
     return [
         "(* Step.after_recycle, statement by statement: (condition, action) *)",
@@ -710,6 +728,8 @@ def tr_after_recycle(ss):
         f"Definition recycle_keeps_inflight : bool := {b(keep)}.",
         "(* Workflow.define_step refuses to declare a detached step again while its job is in flight *)",
         f"Definition define_rejects_inflight : bool := {b(rej)}.",
+        "(* Workflow.define_step refuses a step that declares one of its own (indirect) creators again *)",
+        f"Definition define_rejects_own_creator : bool := {b(rej_own)}.",
     ], {"recycle_keeps_inflight": keep, "define_rejects_inflight": rej}
 
 
